@@ -1096,3 +1096,55 @@ def predicate_true_paths(fl, body):
             return None
         out.append(frozenset(conds))
     return out
+
+
+def path_conditions(fl, body, start, target, region, lit, max_paths=4000):
+    """the ways block `target` is reached from block `start` inside `region` (a set of blocks), each as the frozenset of
+    the literals lit(test, value) (non-None ones) of the bool switches passed on the way.  Cycles are cut (a block is
+    visited once per path).  Returns None when there are too many paths."""
+    import panic
+
+    out = set()
+    n = 0
+    stack = [(start, frozenset(), frozenset([start]))]
+    while stack:
+        x, conds, seen = stack.pop()
+        n += 1
+        if n > max_paths * 20:
+            return None
+        if x == target:
+            out.add(conds)
+            if len(out) > max_paths:
+                return None
+            continue
+        blk = body.blocks[x]
+        succs = [y for y in body.succ(x) if y in region or y == target]
+        at = fl.atom(x) if blk.term.k == "switch" else None
+        for y in succs:
+            if y in seen and y != target:
+                continue
+            c2 = conds
+            if at and at.get("ty") != "bool":
+                # a match on an enum (Option<Ordering> of partial_cmp ..): the caller decides whether it matters
+                try:
+                    l_ = lit(panic.norm(at["test"]), None, x)
+                except TypeError:
+                    l_ = None
+                if l_ is not None:
+                    c2 = conds | {l_}
+            if at and at.get("ty") == "bool":
+                val = (y == at["otherwise"])
+                try:
+                    from props.c01 import through_names as _tn
+
+                    te_ = _tn(fl, panic.norm(at["test"]))
+                except Exception:
+                    te_ = panic.norm(at["test"])
+                try:
+                    l_ = lit(te_, val, x)
+                except TypeError:
+                    l_ = lit(te_, val)
+                if l_ is not None:
+                    c2 = conds | {l_}
+            stack.append((y, c2, seen | {y}))
+    return out
